@@ -42,4 +42,4 @@ def jobs(tier):
     return J
 
 
-META = {'functions': [], 'undecided_part': '', 'trusted_base': ['spec/mir_sem.h', '_MIR_type_size contract (proved in C14) used as a model in harness/c01_gen.c']}
+META = {'functions': ['gvn_modify (62 constant-folding arms, sliced)', 'get_gvn_op', 'get_gvn_2ops', 'get_gvn_3ops', 'set_alloca_based_flag', 'gen_int_log2', 'may_alias_p', 'alloca_mem_intersect_p'], 'undecided_part': '', 'trusted_base': ['spec/mir_sem.h', '_MIR_type_size contract (proved in C14) used as a model in harness/c01_gen.c']}
